@@ -506,6 +506,15 @@ def h_deep(e, kind, repl, ib, bb, ways, ops, props):
     tag0 = DATA_MIN >> g.shift
     ntags = ways + 1
     for k, op in enumerate(ops):
+        if op == "R":
+            # reset of the memory system (what a program reload does): cache empty, lower memory
+            # empty (every byte reads 0), nothing of the earlier history may resurface
+            cs.reset()
+            store = Store(e, "Z%d" % k, 32, 8, zero_init=True)
+            flat = store.fork()
+            cs.memory.memory_file = SymMem(e, store, f.UInt8, total=True)
+            ref = RefCache(g, repl, write_allocate=(kind == "wb"))
+            continue
         t = e.int("t%d" % k, 0, ntags - 1)
         sidx = e.concretize(e.int("s%d" % k, 0, g.sets - 1)) if g.sets > 1 else 0
         woff = e.concretize(e.int("o%d" % k, 0, g.words - 1)) if g.words > 1 else 0
@@ -585,11 +594,11 @@ def h_deep(e, kind, repl, ib, bb, ways, ops, props):
 def deep_jobs(tier, props, module):
     out = []
     if tier == "quick":
-        plan = [((0, 0, 2), ["rrrrr", "rwrrw", "wrirr", "rrwwr"]), ((1, 0, 2), ["rrrr", "wrrw"]), ((0, 1, 2), ["rwrr"]), ((0, 0, 4), ["rrrrr"])]
+        plan = [((0, 0, 2), ["rrrrr", "rwrrw", "wrirr", "rrwwr", "wwRrw"]), ((1, 0, 2), ["rrrr", "wrrw"]), ((0, 1, 2), ["rwrr", "wRrw"]), ((0, 0, 4), ["rrrrr"]), ((0, 0, 1), ["wRrwr", "wrRwr"])]
     else:
         import itertools
 
-        all5 = ["".join(t) for t in itertools.product("rw", repeat=5)] + ["rirrr", "wrirr", "rwiwr", "rriwr"]
+        all5 = ["".join(t) for t in itertools.product("rw", repeat=5)] + ["rirrr", "wrirr", "rwiwr", "rriwr", "wwRrw", "wRwrr", "rwRwr", "wwRww"]
         plan = [((0, 0, 2), all5 + ["rrrrrr", "rwrrwr", "wrrwrr"]), ((1, 0, 2), ["rrrrr", "wrrwr", "rwrwr"]), ((0, 1, 2), ["rwrrr", "rrrwr"]), ((0, 0, 4), ["rrrrrr", "rwrrwr"]), ((0, 0, 3), ["rrrrr"])]
     for (ib, bb, ways), pats in plan:
         for kind in ("wb", "wt"):
